@@ -232,44 +232,27 @@ theorem filterMask_sublist {α : Type} : ∀ (l : List α) (m : List Bool), (fil
     · simpa using (filterMask_sublist as bs).cons a
     · simpa using (filterMask_sublist as bs).cons_cons a
 
-theorem dlocs_keep_sublist (o : Obj) (ax : Axis) (mask : List Bool) :
-    (o.setMd ax ((o.md ax).map (fun ls => filterMask ls mask))).dlocs.Sublist o.dlocs := by
-  cases ax
-  · cases h : o.omd with
-    | none => simp [Obj.setMd, Obj.md, Obj.dlocs, h]
-    | some l =>
-      simp only [Obj.setMd, Obj.md, Obj.dlocs, h, Option.map_some, Option.getD_some]
-      exact (filterMask_sublist l mask).append (List.Sublist.refl _)
-  · cases h : o.smd with
-    | none => simp [Obj.setMd, Obj.md, Obj.dlocs, h]
-    | some l =>
-      simp only [Obj.setMd, Obj.md, Obj.dlocs, h, Option.map_some, Option.getD_some]
-      exact (List.Sublist.refl _).append (filterMask_sublist l mask)
-
-theorem sep_keepMd {h : Heap γ} (s : Sep h) (t ax) (mask : List Bool) : Sep (h.keepMd t ax mask) := by
-  unfold Heap.keepMd
-  split
-  · exact s
-  · rename_i o ho
-    unfold Sep at *
-    have sub := dlocs_keep_sublist o ax mask
-    refine s.set (Nat.le_refl _) (Nat.le_refl _) (Nat.le_refl _) t o _ ho ⟨?_, Or.inl ?_⟩ ?_ ?_ ?_
-    · cases ax <;> simpa [Obj.setMd] using s.matB t o ho
-    · cases ax <;> simp [Obj.setMd]
-    · intro ax'
-      have := s.idsB t o ho ax'
-      cases ax <;> cases ax' <;> simpa [Obj.setMd, Obj.idsLoc] using this
-    · intro l hl
-      exact ⟨s.dictB t o ho l (sub.subset hl), Or.inl (sub.subset hl)⟩
-    · exact (s.dictN t o ho).sublist sub
-
 /-- installing `none` on an axis -/
 theorem dlocs_setNone_sublist (o : Obj) (ax : Axis) : (o.setMd ax none).dlocs.Sublist o.dlocs := by
   cases ax <;> simp [Obj.setMd, Obj.dlocs]
 
-theorem sep_setMdNone {nm ni nd : Nat} {objs : List Obj} (s : SepS nm ni nd objs) (t : Nat) (o : Obj)
-    (ho : objs[t]? = some o) (ax : Axis) : SepS nm ni nd (objs.set t (o.setMd ax none)) := by
-  have sub := dlocs_setNone_sublist o ax
+theorem dlocs_setMd_sublist (o : Obj) (ax : Axis) (m' : Option (List Nat))
+    (hm : ∀ l', m' = some l' → ∃ l, o.md ax = some l ∧ l'.Sublist l) : (o.setMd ax m').dlocs.Sublist o.dlocs := by
+  cases m' with
+  | none => exact dlocs_setNone_sublist o ax
+  | some l' =>
+    obtain ⟨l, hl, hs⟩ := hm l' rfl
+    cases ax
+    · simp only [Obj.md] at hl
+      simp only [Obj.setMd, Obj.dlocs, hl, Option.getD_some]
+      exact hs.append (List.Sublist.refl _)
+    · simp only [Obj.md] at hl
+      simp only [Obj.setMd, Obj.dlocs, hl, Option.getD_some]
+      exact (List.Sublist.refl _).append hs
+
+theorem sep_setMd_sub {nm ni nd : Nat} {objs : List Obj} (s : SepS nm ni nd objs) (t : Nat) (o : Obj)
+    (ho : objs[t]? = some o) (ax : Axis) (m' : Option (List Nat))
+    (sub : (o.setMd ax m').dlocs.Sublist o.dlocs) : SepS nm ni nd (objs.set t (o.setMd ax m')) := by
   refine s.set (Nat.le_refl _) (Nat.le_refl _) (Nat.le_refl _) t o _ ho ⟨?_, Or.inl ?_⟩ ?_ ?_ ?_
   · cases ax <;> simpa [Obj.setMd] using s.matB t o ho
   · cases ax <;> simp [Obj.setMd]
@@ -279,6 +262,27 @@ theorem sep_setMdNone {nm ni nd : Nat} {objs : List Obj} (s : SepS nm ni nd objs
   · intro l hl
     exact ⟨s.dictB t o ho l (sub.subset hl), Or.inl (sub.subset hl)⟩
   · exact (s.dictN t o ho).sublist sub
+
+theorem sep_setMdNone {nm ni nd : Nat} {objs : List Obj} (s : SepS nm ni nd objs) (t : Nat) (o : Obj)
+    (ho : objs[t]? = some o) (ax : Axis) : SepS nm ni nd (objs.set t (o.setMd ax none)) :=
+  sep_setMd_sub s t o ho ax none (dlocs_setNone_sublist o ax)
+
+theorem sep_keepMd {h : Heap γ} (s : Sep h) (t ax) (mask : List Bool) : Sep (h.keepMd t ax mask) := by
+  unfold Heap.keepMd
+  split
+  · exact s
+  · rename_i o ho
+    unfold Sep at *
+    apply sep_setMd_sub s t o ho ax
+    apply dlocs_setMd_sublist
+    intro l' hl'
+    cases hm : o.md ax with
+    | none => simp [hm] at hl'
+    | some ls =>
+      simp only [hm] at hl'
+      split at hl'
+      · cases hl'
+      · cases hl'; exact ⟨ls, rfl, filterMask_sublist ls mask⟩
 
 theorem sep_delMd {h : Heap γ} (s : Sep h) (t ax) (d : Option (Md → Md)) : Sep (h.delMd t ax d) := by
   unfold Heap.delMd
@@ -321,17 +325,18 @@ theorem sep_recast {h : Heap γ} (s : Sep h) (t : Nat) : Sep (h.recast t) := by
   · exact s
   · rename_i o ho
     unfold Sep at *
-    simp only [List.length_append, List.length_map]
-    have hd := dlocs_fresh { o with omd := o.omd.map (fun l => List.range' h.dicts.length l.length),
-                                    smd := o.smd.map (fun l => List.range' (h.dicts.length + (o.omd.getD []).length) l.length) }
-      o.omd o.smd h.dicts.length rfl rfl
+    simp only [List.length_append]
+    have hd := dlocs_fresh
+      { o with omd := (normMd (h.readMd o.omd)).map (fun l => List.range' h.dicts.length l.length),
+               smd := (normMd (h.readMd o.smd)).map
+                 (fun l => List.range' (h.dicts.length + ((normMd (h.readMd o.omd)).getD []).length) l.length) }
+      (normMd (h.readMd o.omd)) (normMd (h.readMd o.smd)) h.dicts.length rfl rfl
     refine s.set (Nat.le_refl _) (Nat.le_refl _) (by omega) t o _ ho ⟨s.matB t o ho, Or.inl rfl⟩ ?_ ?_ ?_
     · intro ax'; exact s.idsB t o ho ax'
     · intro l hl
       rw [hd, List.mem_range'_1] at hl
       exact ⟨by omega, Or.inr hl.1⟩
     · rw [hd]; exact List.nodup_range'
-
 
 theorem newEntries_length (ups : List (Option (Md → Md))) : (newEntries ups).length = ups.length := by
   simp [newEntries]
@@ -933,19 +938,30 @@ theorem abs_setIds {h : Heap γ} (s : Sep h) (t : Nat) (ax : Axis) (l : List Id)
 theorem absObj_md (h : Heap γ) (o : Obj) (ax : Axis) : (h.absObj o).md ax = h.readMd (o.md ax) := by
   cases ax <;> rfl
 
+theorem normMd_some_map (f : Nat → Md) (ls : List Nat) :
+    normMd (some (ls.map f)) = if ls.all (fun l => (f l).isEmpty) then none else some (ls.map f) := by
+  simp [normMd, List.all_map, Function.comp_def]
+
 theorem abs_keepMd {h : Heap γ} (t : Nat) (ax : Axis) (mask : List Bool) (o : Obj)
     (ho : h.objs[t]? = some o) :
     (h.keepMd t ax mask).abs t =
-      some ((h.absObj o).setMd ax (((h.absObj o).md ax).map (fun ms => filterMask ms mask))) := by
+      some ((h.absObj o).setMd ax (normMd (((h.absObj o).md ax).map (fun ms => filterMask ms mask)))) := by
   have hlt := getElem?_some_lt ho
   unfold Heap.keepMd
-  simp only [ho]
-  cases ax
-  · simp only [Heap.abs, Heap.absObj, Heap.mat, Heap.idArr, Heap.readMd, dict_def, Obj.setMd, Obj.md, Content.setMd, Content.md]
-    cases o.omd <;> simp [hlt, filterMask_map, Heap.absObj, Heap.mat, Heap.idArr, Heap.readMd, dict_def]
-  · simp only [Heap.abs, Heap.absObj, Heap.mat, Heap.idArr, Heap.readMd, dict_def, Obj.setMd, Obj.md, Content.setMd, Content.md]
-    cases o.smd <;> simp [hlt, filterMask_map, Heap.absObj, Heap.mat, Heap.idArr, Heap.readMd, dict_def]
-
+  simp only [ho, absObj_md]
+  simp only [Heap.abs, List.getElem?_set, hlt, if_true, Option.map_some, Option.some.injEq]
+  cases hm : o.md ax with
+  | none =>
+    simp only [Heap.readMd, Option.map_none, normMd]
+    cases ax <;> simp only [Obj.md] at hm <;>
+      simp [Obj.setMd, Content.setMd, Heap.absObj, Heap.readMd, Heap.mat, Heap.idArr, dict_def, hm]
+  | some ls =>
+    simp only [Heap.readMd, Option.map_some, ← filterMask_map, normMd_some_map]
+    split
+    · cases ax <;> simp only [Obj.md] at hm <;>
+        simp [Obj.setMd, Content.setMd, Heap.absObj, Heap.readMd, Heap.mat, Heap.idArr, dict_def, hm]
+    · cases ax <;> simp only [Obj.md] at hm <;>
+        simp [Obj.setMd, Content.setMd, Heap.absObj, Heap.readMd, Heap.mat, Heap.idArr, dict_def, hm]
 
 theorem writeDicts_dict_of_not_mem (h : Heap γ) (ws : List (Nat × Option (Md → Md))) (l : Nat)
     (hl : l ∉ ws.map (·.1)) : (h.writeDicts ws).dict l = h.dict l := by
@@ -989,7 +1005,19 @@ theorem writeDicts_zip (locs : List Nat) : ∀ (ups : List (Option (Md → Md)))
           have : l ≠ x := fun e => hl (e ▸ hx)
           simp [Heap.dict, this]
 
-theorem recast_abs {h : Heap γ} (t : Nat) : (h.recast t).abs t = h.abs t := by
+theorem fresh_read (pre ys post : List Md) (m : Option (List Md)) (hm : m.getD [] = ys) :
+    (m.map (fun l => List.range' pre.length l.length)).map
+      (fun x => x.map (fun l => (pre ++ ys ++ post)[l]?.getD [])) = m := by
+  cases m with
+  | none => rfl
+  | some l =>
+    simp only [Option.getD_some] at hm
+    subst hm
+    simp only [Option.map_some, Option.some.injEq]
+    exact map_range_read [] l pre post
+
+/-- `_cast_metadata` changes nothing but the normalisation of information-free tuples -/
+theorem recast_abs {h : Heap γ} (t : Nat) : (h.recast t).abs t = (h.abs t).map Content.norm := by
   unfold Heap.recast
   cases ho : h.objs[t]? with
   | none => simp [Heap.abs, ho]
@@ -997,35 +1025,13 @@ theorem recast_abs {h : Heap γ} (t : Nat) : (h.recast t).abs t = h.abs t := by
     have hlt := getElem?_some_lt ho
     simp only [Heap.abs, ho, Option.map_some]
     simp only [List.getElem?_set, hlt, if_true, Option.map_some, Option.some.injEq]
-    have e1 : ∀ ls : List Nat,
-        (List.range' h.dicts.length ls.length).map
-          (fun l => (h.dicts ++ ls.map h.dict ++ (o.smd.getD []).map h.dict)[l]?.getD []) = ls.map h.dict := by
-      intro ls
-      have := map_range_read ([] : Md) (ls.map h.dict) h.dicts ((o.smd.getD []).map h.dict)
-      simpa using this
-    have e2 : ∀ ls : List Nat,
-        (List.range' (h.dicts.length + (o.omd.getD []).length) ls.length).map
-          (fun l => (h.dicts ++ (o.omd.getD []).map h.dict ++ ls.map h.dict)[l]?.getD []) = ls.map h.dict := by
-      intro ls
-      have := map_range_read ([] : Md) (ls.map h.dict) (h.dicts ++ (o.omd.getD []).map h.dict) []
-      simpa using this
-    simp only [Heap.absObj, Heap.mat, Heap.idArr, Heap.readMd, dict_def]
+    have e1 := fresh_read h.dicts ((normMd (h.readMd o.omd)).getD []) ((normMd (h.readMd o.smd)).getD [])
+      (normMd (h.readMd o.omd)) rfl
+    have e2 := fresh_read (h.dicts ++ (normMd (h.readMd o.omd)).getD []) ((normMd (h.readMd o.smd)).getD []) []
+      (normMd (h.readMd o.smd)) rfl
+    simp only [List.append_nil, List.length_append] at e2
+    simp only [Heap.absObj, Content.norm, Heap.mat, Heap.idArr]
     congr 1
-    · cases hm : o.omd with
-      | none => rfl
-      | some ls =>
-        simp only [Option.map_some, Option.getD_some, Option.some.injEq, List.map_map]
-        have := e1 ls
-        simp only [dict_def, hm, Option.getD_some] at this ⊢
-        exact this
-    · cases hm : o.smd with
-      | none => rfl
-      | some ls =>
-        simp only [Option.map_some, Option.getD_some, Option.some.injEq, List.length_map]
-        have := e2 ls
-        simp only [dict_def, hm, Option.getD_some] at this ⊢
-        exact this
-
 
 theorem absObj_writeDicts_axis {h : Heap γ} (s : Sep h) (t : Nat) (o : Obj) (ho : h.objs[t]? = some o)
     (ax : Axis) (locs : List Nat) (hm : o.md ax = some locs) (ups : List (Option (Md → Md))) :
@@ -1072,51 +1078,58 @@ theorem abs_of_objs_eq (h h' : Heap γ) (t : Nat) (o : Obj) (e : h'.objs = h.obj
     h'.abs t = some (h'.absObj o) := by
   simp [Heap.abs, e, ho]
 
+theorem abs_installFresh {h : Heap γ} (s : Sep h) (t : Nat) (o : Obj) (ho : h.objs[t]? = some o) (ax : Axis)
+    (hm : o.md ax = none) (cs : List Md) (n : Nat) (hn : n = cs.length) :
+    ({ h with dicts := h.dicts ++ cs,
+              objs := h.objs.set t (o.setMd ax (some (List.range' h.dicts.length n))) } : Heap γ).abs t =
+      some ((h.absObj o).setMd ax (some cs)) := by
+  have hlt := getElem?_some_lt ho
+  subst hn
+  simp only [Heap.abs, List.getElem?_set, hlt, if_true, Option.map_some, Option.some.injEq]
+  have e : (List.range' h.dicts.length cs.length).map (fun l => (h.dicts ++ cs)[l]?.getD []) = cs := by
+    have := map_range_read ([] : Md) cs h.dicts []
+    simpa using this
+  have hB := s.dictB t o ho
+  cases ax
+  · simp only [Obj.md] at hm
+    simp only [Heap.absObj, Heap.mat, Heap.idArr, Heap.readMd, dict_def, Obj.setMd, Content.setMd,
+      Option.map_some, e]
+    congr 1
+    cases hs : o.smd with
+    | none => rfl
+    | some ls =>
+      simp only [Option.map_some, Option.some.injEq]
+      apply List.map_congr_left
+      intro x hx
+      rw [List.getElem?_append_left (hB x (by simp [Obj.dlocs, hs, hx]))]
+  · simp only [Obj.md] at hm
+    simp only [Heap.absObj, Heap.mat, Heap.idArr, Heap.readMd, dict_def, Obj.setMd, Content.setMd,
+      Option.map_some, e]
+    congr 1
+    cases hs : o.omd with
+    | none => rfl
+    | some ls =>
+      simp only [Option.map_some, Option.some.injEq]
+      apply List.map_congr_left
+      intro x hx
+      rw [List.getElem?_append_left (hB x (by simp [Obj.dlocs, hs, hx]))]
+
 theorem abs_addMd {h : Heap γ} (s : Sep h) (t : Nat) (ax : Axis) (ups : List (Option (Md → Md))) (o : Obj)
     (ho : h.objs[t]? = some o) :
     (h.addMd t ax ups).abs t = some ((Micro.addMd t ax ups : Micro γ).absStep (h.absObj o)) := by
-  have hlt := getElem?_some_lt ho
   unfold Heap.addMd
   simp only [ho, Micro.absStep, absObj_md]
   cases hm : o.md ax with
   | some locs =>
     simp only [Heap.readMd, Option.map_some]
     rw [recast_abs, abs_of_objs_eq h _ t o (writeDicts_objs _ _) ho, absObj_writeDicts_axis s t o ho ax locs hm]
+    rfl
   | none =>
     simp only [Heap.readMd, Option.map_none]
     split
     · rw [recast_abs]; simp [Heap.abs, ho]
-    · rw [recast_abs]
-      simp only [Heap.abs, List.getElem?_set, hlt, if_true, Option.map_some, Option.some.injEq]
-      have e : (List.range' h.dicts.length ups.length).map
-          (fun l => (h.dicts ++ newEntries ups)[l]?.getD []) = newEntries ups := by
-        have := map_range_read ([] : Md) (newEntries ups) h.dicts []
-        simpa [newEntries_length] using this
-      have hB := s.dictB t o ho
-      cases ax
-      · simp only [Obj.md] at hm
-        simp only [Heap.absObj, Heap.mat, Heap.idArr, Heap.readMd, dict_def, Obj.setMd, Content.setMd,
-          Option.map_some, e]
-        congr 1
-        cases hs : o.smd with
-        | none => rfl
-        | some ls =>
-          simp only [Option.map_some, Option.some.injEq]
-          apply List.map_congr_left
-          intro x hx
-          rw [List.getElem?_append_left (hB x (by simp [Obj.dlocs, hs, hx]))]
-      · simp only [Obj.md] at hm
-        simp only [Heap.absObj, Heap.mat, Heap.idArr, Heap.readMd, dict_def, Obj.setMd, Content.setMd,
-          Option.map_some, e]
-        congr 1
-        cases hs : o.omd with
-        | none => rfl
-        | some ls =>
-          simp only [Option.map_some, Option.some.injEq]
-          apply List.map_congr_left
-          intro x hx
-          rw [List.getElem?_append_left (hB x (by simp [Obj.dlocs, hs, hx]))]
-
+    · rw [recast_abs, abs_installFresh s t o ho ax hm (newEntries ups) ups.length (newEntries_length ups).symm]
+      rfl
 
 theorem map_pair_eq_zip (f : Md → Md) : ∀ locs : List Nat,
     locs.map (fun l => (l, some f)) = locs.zip (List.replicate locs.length (some f))
@@ -1270,17 +1283,6 @@ def builtContent (h : Heap γ) (c : Content γ) (os ss : IdSrc) : Content γ :=
     samp := match h.aliasLoc ss with | some l => h.idArr l | none => c.samp,
     mat := c.mat, omd := normMd c.omd, smd := normMd c.smd, ttype := c.ttype }
 
-theorem fresh_read (pre ys post : List Md) (m : Option (List Md)) (hm : m.getD [] = ys) :
-    (m.map (fun l => List.range' pre.length l.length)).map
-      (fun x => x.map (fun l => (pre ++ ys ++ post)[l]?.getD [])) = m := by
-  cases m with
-  | none => rfl
-  | some l =>
-    simp only [Option.getD_some] at hm
-    subst hm
-    simp only [Option.map_some, Option.some.injEq]
-    exact map_range_read [] l pre post
-
 theorem abs_construct (h : Heap γ) (srcs : List Nat) (F : List (Content γ) → Content γ) (os ss : IdSrc) :
     (h.construct srcs F os ss).abs h.objs.length =
       some (builtContent h (F (srcs.filterMap h.abs)) os ss) := by
@@ -1301,5 +1303,129 @@ theorem abs_construct (h : Heap γ) (srcs : List Nat) (F : List (Content γ) →
     · have := aliasLoc_lt a2
       simp [List.getElem?_append_left this]
   · simp
+
+/-! ### no table ever holds an information-free metadata tuple -/
+
+theorem normMd_idem (m : Option (List Md)) : normMd (normMd m) = normMd m := by
+  cases m with
+  | none => rfl
+  | some l =>
+    by_cases h : l.all (·.isEmpty) = true
+    · simp [normMd, h]
+    · simp [normMd, h]
+
+theorem mdNormal_iff (c : Content γ) : c.mdNormal = true ↔ normMd c.omd = c.omd ∧ normMd c.smd = c.smd := by
+  simp [Content.mdNormal]
+
+theorem norm_mdNormal (c : Content γ) : c.norm.mdNormal = true := by
+  rw [mdNormal_iff]; exact ⟨normMd_idem _, normMd_idem _⟩
+
+theorem setMd_normal (c : Content γ) (ax : Axis) (m : Option (List Md)) (hc : c.mdNormal = true)
+    (hm : normMd m = m) : (c.setMd ax m).mdNormal = true := by
+  rw [mdNormal_iff] at *
+  cases ax
+  · exact ⟨hm, hc.2⟩
+  · exact ⟨hc.1, hm⟩
+
+/-- every in-place step keeps the content free of information-free metadata tuples -/
+theorem absStep_normal (m : Micro γ) (c : Content γ) (hc : c.mdNormal = true) : (m.absStep c).mdNormal = true := by
+  cases m with
+  | allocIds _ => exact hc
+  | construct _ _ _ _ => exact hc
+  | relayout _ _ => exact hc
+  | matKernel t ax g => rw [mdNormal_iff] at *; exact hc
+  | setIds t ax l => rw [mdNormal_iff] at *; cases ax <;> exact hc
+  | keepMd t ax mask => exact setMd_normal c ax _ hc (normMd_idem _)
+  | addMd t ax ups => exact norm_mdNormal _
+  | delMd t ax d =>
+    simp only [Micro.absStep]
+    cases d with
+    | none => exact setMd_normal c ax none hc rfl
+    | some f =>
+      simp only []
+      cases hm : c.md ax with
+      | none => exact hc
+      | some ms =>
+        simp only []
+        split
+        · exact setMd_normal c ax none hc rfl
+        · rename_i hne
+          exact setMd_normal c ax _ hc (by simp [normMd, hne])
+
+/-- the invariant: every live table's content is free of information-free metadata tuples -/
+def Normal (h : Heap γ) : Prop := ∀ (t : Nat) (o : Obj), h.objs[t]? = some o → (h.absObj o).mdNormal = true
+
+theorem step_objs_bound (h : Heap γ) (m : Micro γ) (u : Nat) (hu : u < (step h m).objs.length) :
+    u < h.objs.length ∨ (u = h.objs.length ∧ ∃ srcs F os ss, m = .construct srcs F os ss) := by
+  cases m with
+  | construct srcs F os ss =>
+    simp only [step, Heap.construct, List.length_append, List.length_singleton] at hu
+    rcases Nat.lt_or_ge u h.objs.length with h1 | h1
+    · exact Or.inl h1
+    · exact Or.inr ⟨by omega, _, _, _, _, rfl⟩
+  | allocIds _ => exact Or.inl hu
+  | matKernel t ax g =>
+    left
+    simp only [step, Heap.matKernel] at hu
+    split at hu
+    · exact hu
+    · split at hu <;> simpa using hu
+  | relayout t ax =>
+    left
+    simp only [step, Heap.relayout] at hu
+    split at hu
+    · exact hu
+    · split at hu <;> simpa using hu
+  | setIds t ax l' => left; simp only [step, Heap.setIds] at hu; split at hu <;> simpa using hu
+  | keepMd t ax mask => left; simp only [step, Heap.keepMd] at hu; split at hu <;> simpa using hu
+  | addMd t ax ups =>
+    left
+    have hr : ∀ (h : Heap γ) t, (h.recast t).objs.length = h.objs.length := by
+      intro h t; unfold Heap.recast; split <;> simp
+    simp only [step, Heap.addMd] at hu
+    split at hu
+    · exact hu
+    · split at hu
+      · simpa [hr] using hu
+      · split at hu <;> simpa [hr] using hu
+  | delMd t ax d =>
+    left
+    simp only [step, Heap.delMd] at hu
+    split at hu
+    · exact hu
+    · split at hu
+      · simpa using hu
+      · split at hu
+        · exact hu
+        · split at hu <;> simpa using hu
+
+theorem builtContent_normal (h : Heap γ) (c : Content γ) (os ss : IdSrc) : (builtContent h c os ss).mdNormal = true := by
+  rw [mdNormal_iff]; exact ⟨normMd_idem _, normMd_idem _⟩
+
+theorem step_normal {h : Heap γ} (s : Sep h) (hn : Normal h) (m : Micro γ) : Normal (step h m) := by
+  intro u o' ho'
+  have hu := getElem?_some_lt ho'
+  have habs : (step h m).abs u = some ((step h m).absObj o') := by simp [Heap.abs, ho']
+  rcases step_objs_bound h m u hu with hlt | ⟨rfl, srcs, F, os, ss, rfl⟩
+  · obtain ⟨o, ho⟩ : ∃ o, h.objs[u]? = some o := ⟨h.objs[u], by simp [hlt]⟩
+    by_cases ht : m.target = some u
+    · rw [inplace_abs s m u o ht ho] at habs
+      rw [← Option.some.inj habs]
+      exact absStep_normal m _ (hn u o ho)
+    · rw [frame s m u hlt ht] at habs
+      simp only [Heap.abs, ho, Option.map_some, Option.some.injEq] at habs
+      rw [← habs]; exact hn u o ho
+  · simp only [step] at habs ⊢
+    rw [abs_construct] at habs
+    rw [← Option.some.inj habs]
+    exact builtContent_normal _ _ _ _
+
+theorem run_normal {h : Heap γ} (s : Sep h) (hn : Normal h) (ms : List (Micro γ)) : Normal (run h ms) := by
+  induction ms generalizing h with
+  | nil => exact hn
+  | cons m r ih => exact ih (step_sep s m) (step_normal s hn m)
+
+theorem normal_empty : Normal (Heap.empty : Heap γ) := by
+  intro t o ho; simp [Heap.empty] at ho
 
 end Biom.C07
